@@ -1,6 +1,7 @@
 import GBProofs.Props.C09
 import GBProofs.Layout
 import GBProofs.Layout14
+import GBProofs.DispatchProofs
 /-! C09: the model's arrays (what the translated pipelines are compared against) are, entry by entry, the
 normalised Cartesian block contracted with each spherical shell's own matrix on every basis index:
 `entry1_layout_sph/_cart`, `entry2_layout`, `entry4_layout` with `wBlock4_get8_sph/_cart`. -/
